@@ -38,6 +38,20 @@ from pytableaux.proof import Branch, Node, Tableau
 LEVEL = 'proof'
 
 
+def _fix_hash_seed():
+    """The proof search of pytableaux depends on str hashing (e.g. CFOL 'Universal Predicate Syllogism' takes 9 or
+    21 steps depending on PYTHONHASHSEED), so a run is reproducible for a given VERIF_SEED only with a fixed
+    hash seed.  If none is set, restart the same command with PYTHONHASHSEED=0."""
+    import os
+    import sys
+    if os.environ.get('PYTHONHASHSEED') is None:
+        os.environ['PYTHONHASHSEED'] = '0'
+        sys.stdout.flush()
+        sys.stderr.flush()
+        os.execv(sys.executable, [sys.executable, '-m', 'harness.check', *sys.argv[1:]])
+
+
+
 # --------------------------------------------------------------------------
 # independent walks (the oracle's notion of "occurs")
 # --------------------------------------------------------------------------
@@ -502,6 +516,7 @@ def shrink_history(ops, key):
 
 
 def run(ctx: Ctx):
+    _fix_hash_seed()
     res = lean_phase(ctx, ['Ptx.Props.C06'])
     ctx.coverage['rule'] = ('distinct = distinct branch histories (operation sequences with node contents and object '
                             'identities) run on real Branch objects and compared after every operation, plus distinct '
@@ -625,6 +640,7 @@ def run(ctx: Ctx):
 
 
 def replay(data) -> int:
+    _fix_hash_seed()
     rp = data.get('replay', {})
     if rp.get('kind') == 'history':
         _, observed, viol = run_history(rp['ops'])
